@@ -54,6 +54,16 @@ CHECKS = {
              "(exhaustive short strings, random and mutated abbreviations, random option sets); two listed recursion-limit findings.",
         technique="Coq proof stage-wise (tokenizer, parser over all token lists, converter, snippet resolution with fuel bound, composition) + complete vm_compute sweep of generated snippet tables + exhaustive short-string outcome-class correspondence",
         ref="DESIGN.md §5 C07"),
+    'C08': dict(
+        text="Coq theorems over a state-machine model of the library state that survives a call (caller text slot, cache dicts, BEM "
+             "default dict), for every history length, every world (pure pipeline parts abstract) and every probe: history_independent, "
+             "every_call_independent, caller_cfg_preserved, cache_transparent, cache_entries_valid (inductive invariant), no_growth; "
+             "one refutation per pre-repair defect switch. Tied to the code by per-call state correspondence and by running the history "
+             "model over the real markup and stylesheet models. Oracle: random histories followed by a probe compared with the same call "
+             "in a fresh interpreter process; caller dict deep-equality; sizes of module containers and function defaults; gc-based "
+             "reachability is support, not proof.",
+        technique="Coq proof of an inductive invariant over fold_left step on a history state machine + model/implementation state correspondence + fresh-interpreter differential oracle",
+        ref="DESIGN.md §5 C08"),
     'C09': dict(
         text="Coq theorems: match/balanced_outward/balanced_inward as folds over scanner events return the innermost element, the "
              "enclosing chain and the first-child chain for every well-nested forest (unbounded), attribute ranges are exact; "
